@@ -219,6 +219,10 @@ type genWalker struct {
 	valueFns map[*ast.FuncDecl]bool
 	curDecl  *ast.FuncDecl
 	synthAlt map[ast.Expr][]ast.Expr // a value that is one of several expressions (a local assigned on one branch only)
+	// boundLists: variadic string parameters bound to the argument list of the call being walked (sliceElems holds
+	// the elements, in order): a range over such a parameter is walked once per element
+	boundLists map[types.Object]bool
+	prewalking map[*ast.FuncDecl]bool
 }
 
 type genProblem struct {
@@ -840,6 +844,34 @@ func (a *genWalker) feedDyn(l lexState, d *genDyn, at ast.Node, prev, next strin
 }
 
 func (a *genWalker) feedExpr(l lexState, e ast.Expr) lexState {
+	// an operand that is a call of a string-valued function of the generator which also writes to the output
+	// (`g.sendParameters(m)` emits the declaration of `in` and returns "in"): its writes happen when the operand is
+	// evaluated, before this text
+	if a.evalDepth == 0 {
+		ast.Inspect(e, func(n ast.Node) bool {
+			c, ok := n.(*ast.CallExpr)
+			if !ok {
+				return true
+			}
+			var fd *ast.FuncDecl
+			switch f := c.Fun.(type) {
+			case *ast.Ident:
+				fd = a.funcDeclOf(f)
+			case *ast.SelectorExpr:
+				fd = a.methodDecl(f)
+			}
+			if fd == nil || fd.Body == nil || a.valueFns[fd] || !a.returnsString(fd) || !a.hasSideWrites(fd) || a.prewalking[fd] {
+				return true
+			}
+			a.prewalking[fd] = true
+			a.flushSeg()
+			a.bindParams(fd, c)
+			l = a.callFn(fd, l, c)
+			a.flushSeg()
+			delete(a.prewalking, fd)
+			return true
+		})
+	}
 	ps, ok := a.pieces(e)
 	if !ok {
 		a.problem(e, "expression written to the output buffer could not be classified: "+types.ExprString(e))
@@ -1243,10 +1275,46 @@ func (a *genWalker) flushSeg() {
 }
 
 func (a *genWalker) stmt(s ast.Stmt, l lexState, rets *[]lexState) (lexState, bool) {
+	// `for i := 0; i < n; i++ { buf.WriteString("\t") }`: zero or more copies of a constant (indentation), like
+	// strings.Repeat - part of the surrounding text, not a new stretch of the template
+	if fs, ok := s.(*ast.ForStmt); ok && fs.Body != nil && len(fs.Body.List) == 1 {
+		if es, ok := fs.Body.List[0].(*ast.ExprStmt); ok {
+			if call, ok := es.X.(*ast.CallExpr); ok && isBufWrite(call) && len(call.Args) == 1 {
+				if tv, ok := a.info.Types[call.Args[0]]; ok && tv.Value != nil && tv.Value.Kind() == constant.String {
+					k := constant.StringVal(tv.Value)
+					if _, isInc := fs.Post.(*ast.IncDecStmt); isInc && fs.Cond != nil && k != "" {
+						var f, r genCharset
+						for i := 0; i < len(k); i++ {
+							r[k[i]] = true
+						}
+						f[k[0]] = true
+						d := &genDyn{what: fmt.Sprintf("Repeat(%q)", k), first: &f, rest: &r, repeat: k}
+						if a.evalDepth == 0 {
+							if a.curSeg == nil {
+								a.curSeg = &genFrag{Pos: s.Pos(), Fn: a.curFn, At: l}
+							}
+							a.curSeg.Text += "\x00"
+						}
+						l = a.feedDyn(l, d, s, a.lastConst, "x", true)
+						a.lastConst = ""
+						return l, false
+					}
+				}
+			}
+		}
+	}
+	unrolled := false
+	if rs, ok := s.(*ast.RangeStmt); ok {
+		if id, ok := rs.X.(*ast.Ident); ok && a.boundLists[a.info.Uses[id]] {
+			unrolled = true // straight-line text of the call being walked, not a loop of the template
+		}
+	}
 	switch s.(type) {
 	case *ast.IfStmt, *ast.SwitchStmt, *ast.RangeStmt, *ast.ForStmt, *ast.ReturnStmt, *ast.TypeSwitchStmt:
-		a.flushSeg()
-		defer a.flushSeg()
+		if !unrolled {
+			a.flushSeg()
+			defer a.flushSeg()
+		}
 	}
 	if es, ok := s.(*ast.ExprStmt); ok && a.evalDepth == 0 {
 		// the text this statement emits (constant text, \x00 per splice), for rules that ask what is written right
@@ -1307,6 +1375,15 @@ func (a *genWalker) stmt(s ast.Stmt, l lexState, rets *[]lexState) (lexState, bo
 							l = a.feedExpr(l, e)
 						}
 						return l, false
+					}
+					// the argument list of the caller handed on (`e.p(parts...)`): written as one text
+					if variadicEmitter(a.info, fd) && call.Ellipsis.IsValid() && len(call.Args) > 0 {
+						if id, ok := call.Args[len(call.Args)-1].(*ast.Ident); ok && a.boundLists[a.info.Uses[id]] {
+							if e := concatArgs(a.sliceElems[a.info.Uses[id]]); e != nil {
+								l = a.feedExpr(l, e)
+							}
+							return l, false
+						}
 					}
 					// `func (g *gen) pf(format string, args ...interface{}) { fmt.Fprintf(&g.out, format, args...) }`
 					if fi := formatEmitter(a.info, fd); fi >= 0 && !call.Ellipsis.IsValid() && fi < len(call.Args) {
@@ -1521,6 +1598,27 @@ func (a *genWalker) stmt(s ast.Stmt, l lexState, rets *[]lexState) (lexState, bo
 		}
 		return j, false
 	case *ast.RangeStmt:
+		// a range over the (bound) variadic parameter: the body once per argument, in order
+		if id, ok := x.X.(*ast.Ident); ok && a.boundLists[a.info.Uses[id]] {
+			if vid, ok := x.Value.(*ast.Ident); ok {
+				vobj := a.info.Defs[vid]
+				old, had := a.locals[vobj]
+				for _, el := range a.sliceElems[a.info.Uses[id]] {
+					a.locals[vobj] = el
+					var dead bool
+					l, dead = a.stmts(x.Body.List, l, rets)
+					if dead {
+						break
+					}
+				}
+				if had {
+					a.locals[vobj] = old
+				} else {
+					delete(a.locals, vobj)
+				}
+				return l, false
+			}
+		}
 		o, _ := a.branch(x.Body.List, l, rets)
 		j, ok := joinLex(l, o)
 		if !ok {
@@ -1668,6 +1766,19 @@ func (a *genWalker) evalStringFunc(fd *ast.FuncDecl, call *ast.CallExpr) ([]genP
 	ok := len(res) >= 1
 	if len(res) == 1 {
 		out, ok = a.pieces(res[0])
+	} else if ok && func() bool {
+		// several returns, each a constant: the result is one of them
+		var ks []string
+		for _, e := range res {
+			ps, ok1 := a.pieces(e)
+			if !ok1 || len(ps) != 1 || ps[0].dyn != nil || ps[0].alts != nil || ps[0].group != nil || ps[0].emit != nil || ps[0].oneOf != nil {
+				return false
+			}
+			ks = append(ks, ps[0].konst)
+		}
+		out = []genPiece{{alts: ks}}
+		return true
+	}() {
 	} else if ok {
 		// several returns: each `<one dynamic piece> [+ constant suffix]`; the result is their union
 		var u *genDyn
@@ -1781,15 +1892,42 @@ func keywordGuard(info *types.Info, x *ast.IfStmt) types.Object {
 func (a *genWalker) callFn(fd *ast.FuncDecl, l lexState, at ast.Node) lexState {
 	// a function with string parameters is walked for this call with the parameters standing for the argument
 	// expressions (so `o.line("func f() {")` emits exactly that text); others are summarised per entry mode
-	if call, ok := at.(*ast.CallExpr); ok && a.inlineDepth < 4 && fd.Type.Params != nil {
+	if call, ok := at.(*ast.CallExpr); ok && a.inlineDepth < 8 && fd.Type.Params != nil {
 		type bound struct {
 			obj types.Object
 			e   ast.Expr
 		}
 		var bs []bound
 		idx := 0
+		// a variadic string parameter stands for the list of the remaining arguments (or for the list the caller
+		// forwards with `parts...`)
+		var listObj types.Object
+		var listElems []ast.Expr
+		hadList := false
+		var oldList []ast.Expr
 		for _, fld := range fd.Type.Params.List {
 			for _, pn := range fld.Names {
+				if el, isVar := fld.Type.(*ast.Ellipsis); isVar && types.Identical(a.info.TypeOf(el.Elt), types.Typ[types.String]) {
+					if obj := a.info.Defs[pn]; obj != nil {
+						switch {
+						case !call.Ellipsis.IsValid():
+							listObj = obj
+							if idx <= len(call.Args) {
+								for _, arg := range call.Args[idx:] {
+									listElems = append(listElems, a.freeze(arg))
+								}
+							}
+						case idx == len(call.Args)-1:
+							if id, ok := call.Args[idx].(*ast.Ident); ok {
+								if els, known := a.sliceElems[a.info.Uses[id]]; known {
+									listObj, listElems = obj, els
+								}
+							}
+						}
+					}
+					idx++
+					continue
+				}
 				_, isFn := a.info.TypeOf(fld.Type).Underlying().(*types.Signature)
 				if (types.Identical(a.info.TypeOf(fld.Type), types.Typ[types.String]) || isFn) && idx < len(call.Args) {
 					if obj := a.info.Defs[pn]; obj != nil {
@@ -1799,7 +1937,20 @@ func (a *genWalker) callFn(fd *ast.FuncDecl, l lexState, at ast.Node) lexState {
 				idx++
 			}
 		}
-		if len(bs) > 0 {
+		if listObj != nil {
+			oldList, hadList = a.sliceElems[listObj]
+			a.sliceElems[listObj] = listElems
+			a.boundLists[listObj] = true
+			defer func() {
+				if hadList {
+					a.sliceElems[listObj] = oldList
+				} else {
+					delete(a.sliceElems, listObj)
+					delete(a.boundLists, listObj)
+				}
+			}()
+		}
+		if len(bs) > 0 || listObj != nil {
 			saved := map[types.Object]ast.Expr{}
 			had := map[types.Object]bool{}
 			for _, b := range bs {
@@ -1880,6 +2031,7 @@ func RunGenWalker(p *Prog, m *idlModel, root string) (*genWalker, lexState, stri
 		locals: map[types.Object]ast.Expr{}, kwSafe: map[types.Object]bool{}, memo: map[string]lexState{}, curFn: root}
 	a.methods, a.synthConst = map[string]*ast.FuncDecl{}, map[ast.Expr]string{}
 	a.closures, a.litDecls, a.valueFns, a.synthAlt = map[types.Object]*ast.FuncDecl{}, map[*ast.FuncLit]*ast.FuncDecl{}, map[*ast.FuncDecl]bool{}, map[ast.Expr][]ast.Expr{}
+	a.boundLists, a.prewalking = map[types.Object]bool{}, map[*ast.FuncDecl]bool{}
 	for _, f := range pk.Syntax {
 		for _, d := range f.Decls {
 			if fd, ok := d.(*ast.FuncDecl); ok && fd.Recv == nil {
@@ -2432,4 +2584,43 @@ func (a *genWalker) isLocalBuilderResult(e ast.Expr) bool {
 	}
 	t := a.info.TypeOf(se.X)
 	return t != nil && isBufferType(t)
+}
+
+// returnsString: fd's first result is a string.
+func (a *genWalker) returnsString(fd *ast.FuncDecl) bool {
+	return fd.Type.Results != nil && len(fd.Type.Results.List) >= 1 && a.info.TypeOf(fd.Type.Results.List[0].Type) != nil &&
+		types.Identical(a.info.TypeOf(fd.Type.Results.List[0].Type), types.Typ[types.String])
+}
+
+// hasSideWrites: the body of fd contains a statement that is a call (a write to the buffer, or a call of another
+// function of the generator for its effect).
+func (a *genWalker) hasSideWrites(fd *ast.FuncDecl) bool {
+	found := false
+	ast.Inspect(fd.Body, func(n ast.Node) bool {
+		if _, isLit := n.(*ast.FuncLit); isLit {
+			return false
+		}
+		if es, ok := n.(*ast.ExprStmt); ok {
+			if c, ok := es.X.(*ast.CallExpr); ok {
+				if isBufWrite(c) {
+					found = true
+				}
+				switch f := c.Fun.(type) {
+				case *ast.Ident:
+					if a.funcDeclOf(f) != nil {
+						found = true
+					}
+				case *ast.SelectorExpr:
+					if a.methodDecl(f) != nil {
+						found = true
+					}
+					if id, ok := f.X.(*ast.Ident); ok && id.Name == "fmt" && f.Sel.Name == "Fprintf" {
+						found = true
+					}
+				}
+			}
+		}
+		return !found
+	})
+	return found
 }
